@@ -367,6 +367,25 @@ Theorem C03_key_change_voids_consumed_initiation : forall d m er idx new,
 Proof. exact key_change_voids_consumed_initiation. Qed.
 Print Assumptions C03_key_change_voids_consumed_initiation.
 
+(* Under load: an initiation with a valid MAC1 and no valid MAC2 is answered by a cookie reply, and
+   only by that, which its SENDER can open (Hash("cookie--" || device key), associated data = the
+   sender's own MAC1, receiver = the sender's index); the same initiation with MAC2 under that
+   cookie is then processed exactly as without load. *)
+Theorem C03_cookie_reply_opens_at_initiator : forall d m er idx ck nonce,
+  check_mac1 (d_static d) (init_body m) (i_mac1 m) = true ->
+  i_mac2 m <> mac ck (TPair (init_body m) (i_mac1 m)) ->
+  exists c, dev_step d (EInitLoad m er idx ck nonce) = (d, [OCookieReply (i_sender m) nonce c]) /\
+            aead_open (cookie_key (TPub (d_static d))) nonce c (i_mac1 m) = Some ck.
+Proof. exact cookie_reply_opens_at_initiator. Qed.
+Print Assumptions C03_cookie_reply_opens_at_initiator.
+
+Theorem C03_loaded_retry_with_cookie_as_unloaded : forall d m er idx ck nonce,
+  check_mac1 (d_static d) (init_body m) (i_mac1 m) = true ->
+  i_mac2 m = mac ck (TPair (init_body m) (i_mac1 m)) ->
+  dev_step d (EInitLoad m er idx ck nonce) = init_step d m er idx.
+Proof. exact loaded_retry_with_cookie_as_unloaded. Qed.
+Print Assumptions C03_loaded_retry_with_cookie_as_unloaded.
+
 (* ---- non-vacuity ------------------------------------------------------------ *)
 
 (* device 1 with peers 2 (psk 7) and 3 (no psk): peer 2 initiates, the device
